@@ -5,7 +5,7 @@ import AfkakProofs.Client.B_CloseAll
 /-!
 # `close()` fails every request in flight (C20)
 
-`RInv st acts`: a request that is still pending on a broker client that has been told to close has its failure
+`RcInv st acts`: a request that is still pending on a broker client that has been told to close has its failure
 (`fireReq k …`, pushed by `closeBc`) on the action stack; a broker client is told to close only after it left
 `self.clients`.  Holds through every action (`exec_rinv`), so when a step ends (empty stack, no fuel exhaustion) no
 request is pending on a closed broker client; after `close()` - which closes every broker client
@@ -14,13 +14,15 @@ request is pending on a closed broker client; after `close()` - which closes eve
 namespace Afkak.ClientNet
 open Afkak.ClientCache Afkak.Consts
 
-structure RInv (st : St) (acts : List Act) : Prop where
+structure RcInv (st : St) (acts : List Act) : Prop where
   rids : ∀ (k : Nat) (q : Req), st.reqs[k]? = some q → q.k = k
   closedOut : ∀ i ∈ st.bcs, i.closed = true → i.inClients = false
   stackOut : ∀ b, Act.closeBc b ∈ acts → b < st.bcs.length ∧ ∀ i ∈ st.bcs, i.b = b → i.inClients = false
   owed : ∀ q ∈ st.reqs, q.pending = true → ∀ i ∈ st.bcs, i.b = q.b → i.closed = true → ∃ r n, Act.fireReq q.k r n ∈ acts
+  /-- a pending request was handed to a broker client that exists -/
+  hasBc : ∀ q ∈ st.reqs, q.pending = true → ∃ i ∈ st.bcs, i.b = q.b
 
-theorem RInv.init : RInv ({} : St) [] := ⟨by simp, by simp, by simp, by simp⟩
+theorem RcInv.init : RcInv ({} : St) [] := ⟨by simp, by simp, by simp, by simp, by simp⟩
 
 theorem rids_unique {reqs : List Req} (h : ∀ (k : Nat) (q : Req), reqs[k]? = some q → q.k = k) {q q' : Req} (hq : q ∈ reqs) (hq' : q' ∈ reqs)
     (hk : q.k = q'.k) : q = q' := by
@@ -32,27 +34,19 @@ theorem rids_unique {reqs : List Req} (h : ∀ (k : Nat) (q : Req), reqs[k]? = s
   subst this
   rw [← hiq, ← hjq]
 
-theorem reqGet_mem {st : St} {k : Nat} {q : Req} (h : reqGet st k = some q) : q ∈ st.reqs ∧ q.k = k := by
-  unfold reqGet at h
-  have := List.mem_of_mem_head? h
-  simp only [List.mem_filter, beq_iff_eq] at this
-  exact this
-
-/-- the frame rule: an action other than `closeBc` that keeps the old instances' `b`/`closed` flags, only takes
-    instances out of `self.clients`, adds open instances at the end, keeps the pending requests' `k`/`b` (new pending
-    requests only on open instances), and pushes `closeBc` only for instances that left `self.clients` -/
-theorem RInv.frame {st st1 : St} {a : Act} {rest acts1 : List Act} (h : RInv st (a :: rest))
-    (hcl : ∀ b, a ≠ .closeBc b)
+theorem RcInv.frame {st st1 : St} {a : Act} {rest acts1 : List Act} (h : RcInv st (a :: rest))
+    (_hcl : ∀ b, a ≠ .closeBc b)
     (hlen : st.bcs.length ≤ st1.bcs.length)
     (hbc : ∀ i1 ∈ st1.bcs, (∃ i ∈ st.bcs, i1.b = i.b ∧ i1.closed = i.closed ∧ (i.inClients = false → i1.inClients = false)) ∨
       (i1.closed = false ∧ st.bcs.length ≤ i1.b))
+    (hfwd : ∀ i ∈ st.bcs, ∃ i1 ∈ st1.bcs, i1.b = i.b)
     (hrid : ∀ (k : Nat) (q : Req), st1.reqs[k]? = some q → q.k = k)
     (hrr : ∀ q1 ∈ st1.reqs, q1.pending = true → (∃ q ∈ st.reqs, q.k = q1.k ∧ q.b = q1.b ∧ q.pending = true) ∨
-      (∀ i1 ∈ st1.bcs, i1.b = q1.b → i1.closed = false))
+      ((∃ i1 ∈ st1.bcs, i1.b = q1.b) ∧ ∀ i1 ∈ st1.bcs, i1.b = q1.b → i1.closed = false))
     (hnew : ∀ b, Act.closeBc b ∈ acts1 → b < st1.bcs.length ∧ ∀ i ∈ st1.bcs, i.b = b → i.inClients = false)
     (hkeep : ∀ q ∈ st.reqs, q.pending = true → (∃ r n, a = .fireReq q.k r n) →
       (∃ r n, Act.fireReq q.k r n ∈ acts1 ++ rest) ∨ ∀ q1 ∈ st1.reqs, q1.k = q.k → q1.pending = false) :
-    RInv st1 (acts1 ++ rest) := by
+    RcInv st1 (acts1 ++ rest) := by
   constructor
   · exact hrid
   · intro i1 hi1 hc
@@ -79,22 +73,29 @@ theorem RInv.frame {st st1 : St} {a : Act} {rest acts1 : List Act} (h : RInv st 
             rw [this] at hp; cases hp
         · exact ⟨r, n, ek ▸ List.mem_append_right _ hm⟩
       · rw [h1] at hc; cases hc
-    · have := hopen i1 hi1 hib
+    · have := hopen.2 i1 hi1 hib
       rw [this] at hc; cases hc
+  · intro q1 hq1 hp
+    rcases hrr q1 hq1 hp with ⟨q, hq, _, eb, hqp⟩ | hopen
+    · obtain ⟨i, hi, hib⟩ := h.hasBc q hq hqp
+      obtain ⟨i1, hi1, e⟩ := hfwd i hi
+      exact ⟨i1, hi1, by rw [e, hib, eb]⟩
+    · exact hopen.1
 
 /-- nothing the invariant talks about changes, no `closeBc` is pushed -/
-theorem RInv.same {st st1 : St} {a : Act} {rest acts1 : List Act} (h : RInv st (a :: rest))
+theorem RcInv.same {st st1 : St} {a : Act} {rest acts1 : List Act} (h : RcInv st (a :: rest))
     (hcl : ∀ b, a ≠ .closeBc b) (hf : ∀ k r n, a ≠ .fireReq k r n)
-    (hb : st1.bcs = st.bcs) (hr : st1.reqs = st.reqs) (hnew : ∀ b, Act.closeBc b ∉ acts1) : RInv st1 (acts1 ++ rest) := by
-  apply h.frame hcl (by rw [hb]) ?_ (by rw [hr]; exact h.rids) ?_ (fun b hm => absurd hm (hnew b))
+    (hb : st1.bcs = st.bcs) (hr : st1.reqs = st.reqs) (hnew : ∀ b, Act.closeBc b ∉ acts1) : RcInv st1 (acts1 ++ rest) := by
+  apply h.frame hcl (by rw [hb]; exact Nat.le_refl _) ?_ (fun i hi => ⟨i, hb ▸ hi, rfl⟩) (by rw [hr]; exact h.rids) ?_ (fun b hm => absurd hm (hnew b))
     (fun q _ _ ⟨r, n, e⟩ => absurd e (hf _ _ _))
   · intro i1 hi1; rw [hb] at hi1; exact Or.inl ⟨i1, hi1, rfl, rfl, id⟩
   · intro q1 hq1 hp; rw [hr] at hq1; exact Or.inl ⟨q1, hq1, rfl, rfl, hp⟩
 
 /-- the state changes in what the invariant does not talk about; the stack is as it was -/
-theorem RInv.of_eq {st st1 : St} {acts : List Act} (h : RInv st acts) (hb : st1.bcs = st.bcs) (hr : st1.reqs = st.reqs) :
-    RInv st1 acts :=
-  ⟨by rw [hr]; exact h.rids, by rw [hb]; exact h.closedOut, by rw [hb]; exact h.stackOut, by rw [hb, hr]; exact h.owed⟩
+theorem RcInv.of_eq {st st1 : St} {acts : List Act} (h : RcInv st acts) (hb : st1.bcs = st.bcs) (hr : st1.reqs = st.reqs) :
+    RcInv st1 acts :=
+  ⟨by rw [hr]; exact h.rids, by rw [hb]; exact h.closedOut, by rw [hb]; exact h.stackOut, by rw [hb, hr]; exact h.owed,
+   by rw [hb, hr]; exact h.hasBc⟩
 
 theorem shuffle_reqs {α} {st st' : St} {xs ys : List α} (h : shuffle st xs = some (st', ys)) : st'.reqs = st.reqs := by
   unfold shuffle at h
@@ -103,16 +104,6 @@ theorem shuffle_reqs {α} {st st' : St} {xs ys : List α} (h : shuffle st xs = s
   · simp only [Option.map_eq_some_iff] at h
     obtain ⟨_, _, heq⟩ := h
     cases heq; rfl
-
-theorem reqDone_reqs (st : St) (o : ReqOwner) (k : Nat) (r : Res) : (reqDone st o k r).1.reqs = st.reqs := by
-  unfold reqDone
-  split
-  · split <;> (try split) <;> rfl
-  · rfl
-  · rfl
-
-theorem cloadJoin_reqs (st : St) (w : Waiter) (g : String) : (cloadJoin st w g).1.reqs = st.reqs := by
-  unfold cloadJoin; split <;> rfl
 
 theorem reqDone_noCloseBc (st : St) (o : ReqOwner) (k : Nat) (r : Res) (b : Nat) : Act.closeBc b ∉ (reqDone st o k r).2 := by
   unfold reqDone
@@ -129,5 +120,597 @@ theorem cancelUnaware_noCloseBc (x : Unaware) (b : Nat) : Act.closeBc b ∉ (can
 
 theorem deliverLoad_noCloseBc (lo : LOwner) (r : Res) (b : Nat) : Act.closeBc b ∉ deliverLoad lo r := by
   unfold deliverLoad; split <;> simp
+
+theorem getBrokerClient_shape {st st1 : St} {n : Int} {b : Nat} {obs : List Ob} (hg : getBrokerClient st n = .ok (st1, b, obs)) :
+    st1.reqs = st.reqs ∧ ((st1.bcs = st.bcs ∧ ∃ i ∈ st.bcs, i.b = b ∧ i.inClients = true) ∨
+      (st1.bcs = st.bcs ++ [{ b := st.bcs.length, node := n }] ∧ b = st.bcs.length)) := by
+  unfold getBrokerClient at hg
+  split at hg
+  · cases hg
+  · split at hg
+    · rename_i i hi
+      cases hg
+      refine ⟨rfl, Or.inl ⟨rfl, i, ?_⟩⟩
+      unfold bcOfNode at hi
+      have := List.mem_of_mem_head? hi
+      simp only [List.mem_filter, Bool.and_eq_true, beq_iff_eq] at this
+      exact ⟨this.1, rfl, this.2.2⟩
+    · split at hg
+      · cases hg
+      · cases hg
+        exact ⟨rfl, Or.inr ⟨rfl, rfl⟩⟩
+
+theorem bcs_b_unique {st : St} (hI : BcInv st) {i j : BcInst} (hi : i ∈ st.bcs) (hj : j ∈ st.bcs) (h : i.b = j.b) : i = j := by
+  obtain ⟨a, ha, hai⟩ := List.getElem_of_mem hi
+  obtain ⟨c, hc, hcj⟩ := List.getElem_of_mem hj
+  have h1 := hI.ids a i (by rw [List.getElem?_eq_getElem ha, hai])
+  have h2 := hI.ids c j (by rw [List.getElem?_eq_getElem hc, hcj])
+  have : a = c := by omega
+  subst this
+  rw [← hai, ← hcj]
+
+theorem bcs_b_lt {st : St} (hI : BcInv st) {i : BcInst} (hi : i ∈ st.bcs) : i.b < st.bcs.length := by
+  obtain ⟨a, ha, hai⟩ := List.getElem_of_mem hi
+  have h1 := hI.ids a i (by rw [List.getElem?_eq_getElem ha, hai])
+  omega
+
+/-- after `_get_brokerclient` (old or new instance `b`), any state with the same tables plus possibly one more request
+    on `b`, and follow-up actions without `closeBc` -/
+theorem RcInv.afterGet {st st1 st2 : St} {n : Int} {b : Nat} {obs : List Ob} {a : Act} {rest acts1 : List Act}
+    (h : RcInv st (a :: rest)) (hI : BcInv st) (hcl : ∀ b, a ≠ .closeBc b) (hf : ∀ k r n, a ≠ .fireReq k r n)
+    (hg : getBrokerClient st n = .ok (st1, b, obs)) (hb : st2.bcs = st1.bcs)
+    (hr : st2.reqs = st1.reqs ∨ ∃ q, st2.reqs = st1.reqs ++ [q] ∧ q.k = st1.reqs.length ∧ q.b = b)
+    (hnew : ∀ b, Act.closeBc b ∉ acts1) : RcInv st2 (acts1 ++ rest) := by
+  obtain ⟨hreq, hshape⟩ := getBrokerClient_shape hg
+  have hopen : ∀ i1 ∈ st1.bcs, i1.b = b → i1.closed = false := by
+    intro i1 hi1 hib
+    rcases hshape with ⟨e, i, hi, hib', hin⟩ | ⟨e, hbl⟩
+    · rw [e] at hi1
+      have := bcs_b_unique hI hi1 hi (hib.trans hib'.symm)
+      subst this
+      cases hc : i1.closed
+      · rfl
+      · have := h.closedOut i1 hi hc; rw [this] at hin; cases hin
+    · rw [e] at hi1
+      rcases List.mem_append.mp hi1 with h1 | h1
+      · have := bcs_b_lt hI h1; omega
+      · simp only [List.mem_singleton] at h1; subst h1; rfl
+  have hex : ∃ i1 ∈ st1.bcs, i1.b = b := by
+    rcases hshape with ⟨e, i, hi, hib', _⟩ | ⟨e, hbl⟩
+    · exact ⟨i, e ▸ hi, hib'⟩
+    · exact ⟨{ b := st.bcs.length, node := n }, by rw [e]; simp, hbl.symm⟩
+  apply h.frame hcl ?_ ?_ ?_ ?_ ?_ (fun b hm => absurd hm (hnew b)) (fun q _ _ ⟨r, n, e⟩ => absurd e (hf _ _ _))
+  · rw [hb]; rcases hshape with ⟨e, _⟩ | ⟨e, _⟩ <;> rw [e] <;> simp
+  · intro i1 hi1
+    rw [hb] at hi1
+    rcases hshape with ⟨e, _⟩ | ⟨e, _⟩
+    · rw [e] at hi1; exact Or.inl ⟨i1, hi1, rfl, rfl, id⟩
+    · rw [e] at hi1
+      rcases List.mem_append.mp hi1 with h1 | h1
+      · exact Or.inl ⟨i1, h1, rfl, rfl, id⟩
+      · simp only [List.mem_singleton] at h1; subst h1; exact Or.inr ⟨rfl, Nat.le_refl _⟩
+  · intro i hi
+    rw [hb]
+    rcases hshape with ⟨e, _⟩ | ⟨e, _⟩
+    · exact ⟨i, e ▸ hi, rfl⟩
+    · exact ⟨i, by rw [e]; exact List.mem_append_left _ hi, rfl⟩
+  · intro k q hq
+    rcases hr with e | ⟨qn, e, hk, _⟩
+    · rw [e, hreq] at hq; exact h.rids k q hq
+    · rw [e, hreq] at hq
+      by_cases hlt : k < st.reqs.length
+      · rw [List.getElem?_append_left hlt] at hq; exact h.rids k q hq
+      · rw [List.getElem?_append_right (by omega)] at hq
+        rcases Nat.eq_zero_or_pos (k - st.reqs.length) with h0 | hpos
+        · rw [h0] at hq
+          simp only [List.getElem?_cons_zero, Option.some.injEq] at hq
+          subst hq; rw [hk, hreq]; omega
+        · rw [List.getElem?_eq_none (by simp; omega)] at hq; cases hq
+  · intro q1 hq1 hp
+    rcases hr with e | ⟨qn, e, _, hqb⟩
+    · rw [e, hreq] at hq1; exact Or.inl ⟨q1, hq1, rfl, rfl, hp⟩
+    · rw [e, hreq] at hq1
+      rcases List.mem_append.mp hq1 with h1 | h1
+      · exact Or.inl ⟨q1, h1, rfl, rfl, hp⟩
+      · simp only [List.mem_singleton] at h1; subst h1
+        right
+        refine ⟨by rw [hb, hqb]; exact hex, ?_⟩
+        intro i1 hi1 hib
+        rw [hb] at hi1
+        exact hopen i1 hi1 (hib.trans hqb)
+
+theorem makeRequest_shape (cfg : Cfg) (st : St) (b : Nat) (o : ReqOwner) (e : Bool) (w : ReqWhat) (m : Option Rat) :
+    (makeRequest cfg st b o e w m).1.bcs = st.bcs ∧
+    (∃ q, (makeRequest cfg st b o e w m).1.reqs = st.reqs ++ [q] ∧ q.k = st.reqs.length ∧ q.b = b) ∧
+    ∀ b', Act.closeBc b' ∉ (makeRequest cfg st b o e w m).2.2.2 := by
+  refine ⟨rfl, ⟨_, rfl, rfl, rfl⟩, ?_⟩
+  intro b'
+  simp only [makeRequest]
+  split <;> simp
+
+theorem issueTo_ok_rinv {cfg : Cfg} {st st2 : St} {n : Int} {o : ReqOwner} {e : Bool} {w : ReqWhat} {m : Option Rat}
+    {rj : Bool} {i : IssueOk} {a : Act} {rest : List Act} (hi : issueTo cfg st n o e w m rj = .ok i)
+    (h : RcInv st (a :: rest)) (hI : BcInv st) (hcl : ∀ b, a ≠ .closeBc b) (hf : ∀ k r n, a ≠ .fireReq k r n)
+    (hb : st2.bcs = i.st.bcs) (hr : st2.reqs = i.st.reqs) : RcInv st2 (i.acts ++ rest) := by
+  obtain ⟨st1, b, obs1, hg, hst, _, _, hacts⟩ := issueTo_ok hi
+  obtain ⟨m1, ⟨q, m2, m3, m4⟩, m5⟩ := makeRequest_shape cfg st1 b o e w m
+  rw [hacts]
+  exact h.afterGet hI hcl hf hg (by rw [hb, hst, m1]) (Or.inr ⟨q, by rw [hr, hst, m2], m3, m4⟩) m5
+
+theorem issueTo_err_rinv {cfg : Cfg} {st : St} {n : Int} {o : ReqOwner} {e : Bool} {w : ReqWhat} {m : Option Rat}
+    {rj : Bool} {er : IssueErr} {a : Act} {rest acts1 : List Act} (he : issueTo cfg st n o e w m rj = .error er)
+    (h : RcInv st (a :: rest)) (hI : BcInv st) (hcl : ∀ b, a ≠ .closeBc b) (hf : ∀ k r n, a ≠ .fireReq k r n)
+    (hnew : ∀ b, Act.closeBc b ∉ acts1) : RcInv er.st (acts1 ++ rest) := by
+  rcases issueTo_err he with ⟨h1, _⟩ | ⟨b, hg⟩
+  · rw [h1]; exact h.same hcl hf rfl rfl hnew
+  · exact h.afterGet hI hcl hf hg rfl (Or.inl rfl) hnew
+
+theorem applyUpdate_rinv {st st0 : St} {a : Act} {rest : List Act} (h : RcInv st (a :: rest)) (hI : BcInv st)
+    (hcl : ∀ b, a ≠ .closeBc b) (hf : ∀ k r n, a ≠ .fireReq k r n) (hb : st0.bcs = st.bcs) (hr : st0.reqs = st.reqs)
+    (c' : Cache) (cn : List Int) (bs : List Broker) (more : List Act) (hmore : ∀ b, Act.closeBc b ∉ more) :
+    RcInv (applyUpdate st0 c' cn bs).1 ((applyUpdate st0 c' cn bs).2.2 ++ more ++ rest) := by
+  apply h.frame (acts1 := (applyUpdate st0 c' cn bs).2.2 ++ more) hcl ?_ ?_ ?_ ?_ ?_ ?_ (fun q _ _ ⟨r, n, e⟩ => absurd e (hf _ _ _))
+  · simp [applyUpdate, hb]
+  · intro i1 hi1
+    simp only [applyUpdate, List.mem_map] at hi1
+    obtain ⟨i, hi, rfl⟩ := hi1
+    rw [hb] at hi
+    refine Or.inl ⟨i, hi, ?_, ?_, ?_⟩ <;> (split <;> simp)
+  · intro i hi
+    refine ⟨(if ((sortByNode (st0.bcs.filter (fun i => i.inClients && cn.contains i.node))).map (·.b)).contains i.b
+      then { i with inClients := false } else i), ?_, ?_⟩
+    · simp only [applyUpdate, List.mem_map]
+      exact ⟨i, hb ▸ hi, rfl⟩
+    · split <;> rfl
+  · simp only [applyUpdate, hr]; exact h.rids
+  · intro q1 hq1 hp
+    simp only [applyUpdate, hr] at hq1
+    exact Or.inl ⟨q1, hq1, rfl, rfl, hp⟩
+  · intro b hm
+    rcases List.mem_append.mp hm with hm | hm
+    · simp only [applyUpdate] at hm
+      split at hm
+      · cases hm
+      · rcases List.mem_append.mp hm with hm | hm
+        · simp only [List.mem_map, Act.closeBc.injEq, exists_eq_right] at hm
+          obtain ⟨i, hi, hib⟩ := hm
+          have hi' : i ∈ st.bcs := by
+            rw [← hb]
+            exact (List.mem_filter.mp (mem_sortByNode.mp hi)).1
+          constructor
+          · simp only [applyUpdate, List.length_map, hb]
+            rw [← hib]; exact bcs_b_lt hI hi'
+          · intro i1 hi1 hi1b
+            simp only [applyUpdate, List.mem_map] at hi1
+            obtain ⟨i0, _, rfl⟩ := hi1
+            have hc : ((sortByNode (st0.bcs.filter (fun i => i.inClients && cn.contains i.node))).map (·.b)).contains i0.b = true := by
+              rw [List.contains_iff_mem, List.mem_map]
+              refine ⟨i, hi, ?_⟩
+              rw [hib, ← hi1b]
+              split <;> rfl
+            rw [if_pos hc]
+        · simp at hm
+    · exact absurd hm (hmore b)
+
+theorem setReq_mem {st : St} {k : Nat} {f : Req → Req} {q1 : Req} (h : q1 ∈ (setReq st k f).reqs) :
+    ∃ q ∈ st.reqs, q1 = (if q.k == k then f q else q) := by
+  simp only [setReq, List.mem_map] at h
+  obtain ⟨q, hq, rfl⟩ := h
+  exact ⟨q, hq, rfl⟩
+
+theorem setReq_rids {st : St} (h : ∀ (k : Nat) (q : Req), st.reqs[k]? = some q → q.k = k) (k0 : Nat) (f : Req → Req)
+    (hf : ∀ q, (f q).k = q.k) : ∀ (k : Nat) (q : Req), (setReq st k0 f).reqs[k]? = some q → q.k = k := by
+  intro k q hq
+  simp only [setReq, List.getElem?_map] at hq
+  cases h0 : st.reqs[k]? with
+  | none => rw [h0] at hq; cases hq
+  | some q0 =>
+    rw [h0] at hq
+    simp only [Option.map_some, Option.some.injEq] at hq
+    rw [← hq]
+    split
+    · rw [hf]; exact h k q0 h0
+    · exact h k q0 h0
+
+/-- an action that resolves request `k` (`pending := false`) and otherwise leaves the tables alone -/
+theorem RcInv.resolve {st st1 : St} {a : Act} {rest acts1 : List Act} (h : RcInv st (a :: rest)) (hcl : ∀ b, a ≠ .closeBc b)
+    (k : Nat) (f : Req → Req) (hfk : ∀ q, (f q).k = q.k ∧ (f q).b = q.b ∧ (f q).pending = false)
+    (ha : ∀ k' r n, a = .fireReq k' r n → k' = k)
+    (hb : st1.bcs = st.bcs) (hr : st1.reqs = (setReq st k f).reqs) (hnew : ∀ b, Act.closeBc b ∉ acts1) :
+    RcInv st1 (acts1 ++ rest) := by
+  apply h.frame hcl (by rw [hb]; exact Nat.le_refl _) ?_ (fun i hi => ⟨i, hb ▸ hi, rfl⟩) ?_ ?_ (fun b hm => absurd hm (hnew b)) ?_
+  · intro i1 hi1; rw [hb] at hi1; exact Or.inl ⟨i1, hi1, rfl, rfl, id⟩
+  · rw [hr]; exact setReq_rids h.rids k f (fun q => (hfk q).1)
+  · intro q1 hq1 hp
+    rw [hr] at hq1
+    obtain ⟨q, hq, rfl⟩ := setReq_mem hq1
+    left
+    split at hp
+    · rw [(hfk q).2.2] at hp; cases hp
+    · rename_i hne
+      simp only [hne]
+      exact ⟨q, hq, rfl, rfl, hp⟩
+  · intro q hq hp ⟨r, n, e⟩
+    right
+    have hk := ha _ _ _ e
+    intro q1 hq1 hk1
+    rw [hr] at hq1
+    obtain ⟨q0, hq0, rfl⟩ := setReq_mem hq1
+    split
+    · exact (hfk q0).2.2
+    · rename_i hne
+      simp only [hne] at hk1
+      exfalso
+      apply hne
+      simp only [beq_iff_eq]
+      simp only [Bool.false_eq_true, if_false] at hk1
+      rw [hk1, hk]
+
+/-- flags the invariant does not talk about change (`down`, `conn`) -/
+theorem RcInv.flags {st st1 : St} {a : Act} {rest acts1 : List Act} (h : RcInv st (a :: rest))
+    (hcl : ∀ b, a ≠ .closeBc b) (hf : ∀ k r n, a ≠ .fireReq k r n) (g : BcInst → BcInst)
+    (hg : ∀ i, (g i).b = i.b ∧ (g i).closed = i.closed ∧ (g i).inClients = i.inClients)
+    (hb : st1.bcs = st.bcs.map g) (hr : st1.reqs = st.reqs) (hnew : ∀ b, Act.closeBc b ∉ acts1) : RcInv st1 (acts1 ++ rest) := by
+  apply h.frame hcl (by rw [hb]; simp) ?_ (fun i hi => ⟨g i, by rw [hb]; exact List.mem_map.mpr ⟨i, hi, rfl⟩, (hg i).1⟩)
+    (by rw [hr]; exact h.rids) ?_ (fun b hm => absurd hm (hnew b))
+    (fun q _ _ ⟨r, n, e⟩ => absurd e (hf _ _ _))
+  · intro i1 hi1
+    rw [hb, List.mem_map] at hi1
+    obtain ⟨i, hi, rfl⟩ := hi1
+    exact Or.inl ⟨i, hi, (hg i).1, (hg i).2.1, fun hh => by rw [(hg i).2.2]; exact hh⟩
+  · intro q1 hq1 hp; rw [hr] at hq1; exact Or.inl ⟨q1, hq1, rfl, rfl, hp⟩
+
+theorem reqGet_none {st : St} {k : Nat} (h : reqGet st k = none) : ∀ q ∈ st.reqs, q.k ≠ k := by
+  intro q hq hk
+  unfold reqGet at h
+  rw [List.head?_eq_none_iff, List.filter_eq_nil_iff] at h
+  exact h q hq (by simp [hk])
+
+theorem RcInv.closeBc {st : St} {b : Nat} {rest : List Act} (h : RcInv st (.closeBc b :: rest)) :
+    RcInv (exec cfg st (.closeBc b)).1 ((exec cfg st (.closeBc b)).2.2 ++ rest) := by
+  simp only [exec]
+  obtain ⟨hblt, hbout⟩ := h.stackOut b List.mem_cons_self
+  constructor
+  · exact h.rids
+  · intro i1 hi1 hc
+    simp only [List.mem_map] at hi1
+    obtain ⟨i, hi, rfl⟩ := hi1
+    by_cases hib : i.b = b
+    · simp only [hib, beq_self_eq_true, if_true]; exact hbout i hi hib
+    · simp only [beq_iff_eq, hib, if_false] at hc ⊢; exact h.closedOut i hi hc
+  · intro b' hb'
+    have hb'' : Act.closeBc b' ∈ rest := by
+      rcases List.mem_append.mp hb' with hm | hm
+      · exfalso
+        rcases List.mem_append.mp hm with hm | hm
+        · simp at hm
+        · split at hm <;> simp at hm
+      · exact hm
+    obtain ⟨h1, h2⟩ := h.stackOut b' (List.mem_cons_of_mem _ hb'')
+    refine ⟨by simpa using h1, ?_⟩
+    intro i1 hi1 hi1b
+    simp only [List.mem_map] at hi1
+    obtain ⟨i, hi, rfl⟩ := hi1
+    have : i.b = b' := by split at hi1b <;> exact hi1b
+    have := h2 i hi this
+    split <;> exact this
+  · intro q hq hp i1 hi1 hib hc
+    simp only [List.mem_map] at hi1
+    obtain ⟨i, hi, rfl⟩ := hi1
+    have hib' : i.b = q.b := by split at hib <;> exact hib
+    by_cases hbb : i.b = b
+    · refine ⟨.err .clientClosed, true, ?_⟩
+      apply List.mem_append_left
+      apply List.mem_append_left
+      rw [List.mem_map]
+      refine ⟨q, ?_, rfl⟩
+      rw [List.mem_reverse, List.mem_filter]
+      exact ⟨hq, by simp [hp, ← hib', hbb]⟩
+    · simp only [beq_iff_eq, hbb, if_false] at hc
+      obtain ⟨r, n, hm⟩ := h.owed q hq hp i hi hib' hc
+      rcases List.mem_cons.mp hm with hm | hm
+      · cases hm
+      · exact ⟨r, n, List.mem_append_right _ hm⟩
+  · intro q hq hp
+    obtain ⟨i, hi, hib⟩ := h.hasBc q hq hp
+    refine ⟨_, List.mem_map.mpr ⟨i, hi, rfl⟩, ?_⟩
+    split <;> exact hib
+
+theorem exec_rinv (cfg : Cfg) (st : St) (a : Act) (rest : List Act) (hI : BcInv st) (h : RcInv st (a :: rest)) :
+    RcInv (exec cfg st a).1 ((exec cfg st a).2.2 ++ rest) := by
+  cases a
+  case closeBc b => exact h.closeBc
+  case fireReq k r nested =>
+    have hcl : ∀ b, Act.fireReq k r nested ≠ .closeBc b := by intro b e; cases e
+    have hk : ∀ k' r' n', Act.fireReq k r nested = .fireReq k' r' n' → k' = k := by intro k' r' n' e; cases e; rfl
+    simp only [exec]
+    split
+    · rename_i hnone
+      apply h.frame hcl (Nat.le_refl _) (fun i1 hi1 => Or.inl ⟨i1, hi1, rfl, rfl, id⟩) (fun i hi => ⟨i, hi, rfl⟩) h.rids
+        (fun q1 hq1 hp => Or.inl ⟨q1, hq1, rfl, rfl, hp⟩) (fun b hm => by cases hm)
+      intro q hq hp ⟨r', n', e⟩
+      exact absurd (hk _ _ _ e) (reqGet_none hnone q hq)
+    · rename_i q0 hq0
+      split
+      · rename_i hnp
+        apply h.frame hcl (Nat.le_refl _) (fun i1 hi1 => Or.inl ⟨i1, hi1, rfl, rfl, id⟩) (fun i hi => ⟨i, hi, rfl⟩) h.rids
+          (fun q1 hq1 hp => Or.inl ⟨q1, hq1, rfl, rfl, hp⟩) (fun b hm => by cases hm)
+        intro q hq hp ⟨r', n', e⟩
+        have := rids_unique h.rids hq (reqGet_mem hq0).1 ((hk _ _ _ e).trans (reqGet_mem hq0).2.symm)
+        subst this
+        simp [hp] at hnp
+      · dsimp only
+        split <;>
+          exact h.resolve hcl k (fun x => { x with pending := false }) (fun q => ⟨rfl, rfl, rfl⟩) hk
+            ((reqDone_bcs _ _ _ _).1.trans rfl) ((reqDone_reqs _ _ _ _).trans rfl) (reqDone_noCloseBc _ _ _ _)
+  case timeoutFired k =>
+    have hcl : ∀ b, Act.timeoutFired k ≠ .closeBc b := by intro b e; cases e
+    have hf : ∀ k' r n, Act.timeoutFired k ≠ .fireReq k' r n := by intro k' r n e; cases e
+    simp only [exec]
+    split
+    · exact h.same hcl hf rfl rfl (by simp)
+    · split
+      · exact h.same hcl hf rfl rfl (by simp)
+      · dsimp only
+        refine h.resolve hcl k (fun x => { x with timedOut := true, pending := false }) (fun q => ⟨rfl, rfl, rfl⟩)
+          (fun k' r n e => by cases e) ((reqDone_bcs _ _ _ _).1.trans rfl) ((reqDone_reqs _ _ _ _).trans rfl) ?_
+        intro b hm
+        rcases List.mem_append.mp hm with hm | hm
+        · exact reqDone_noCloseBc _ _ _ _ _ hm
+        · split at hm <;> simp at hm
+  case unawareDone u r =>
+    have hcl : ∀ b, Act.unawareDone u r ≠ .closeBc b := by intro b e; cases e
+    have hf : ∀ k' r' n, Act.unawareDone u r ≠ .fireReq k' r' n := by intro k' r' n e; cases e
+    simp only [exec, updateBrokers]
+    split <;> try dsimp only
+    · exact h.same hcl hf rfl rfl (by simp)
+    · split
+      all_goals (split <;> try dsimp only)
+      all_goals (first
+        | (refine applyUpdate_rinv h hI hcl hf ?_ ?_ _ _ _ _ ?_ <;> first | rfl | (simp; done))
+        | (refine h.same hcl hf rfl rfl ?_; simp [deliverLoad_noCloseBc]; done))
+  case bcDown b nested =>
+    simp only [exec]
+    exact h.flags (by intro b e; cases e) (by intro k r n e; cases e) (fun i => if i.b == b then { i with down := true } else i)
+      (fun i => by split <;> exact ⟨rfl, rfl, rfl⟩) rfl rfl (by simp)
+  all_goals simp only [exec]
+  all_goals (repeat' split)
+  all_goals (try dsimp only)
+  all_goals (first
+    | (refine h.same (by intro b e; cases e) (by intro k r n e; cases e) rfl rfl ?_; simp [deliverLoad_noCloseBc, cancelUnaware_noCloseBc]; done)
+    | (rename_i hs; refine h.same (by intro b e; cases e) (by intro k r n e; cases e) (shuffle_bcs hs).1 (shuffle_reqs hs) ?_; simp; done)
+    | exact h.same (by intro b e; cases e) (by intro k r n e; cases e) (reqDone_bcs _ _ _ _).1 (reqDone_reqs _ _ _ _) (reqDone_noCloseBc _ _ _ _)
+    | exact h.same (by intro b e; cases e) (by intro k r n e; cases e) (cloadJoin_bcs _ _ _).1 (cloadJoin_reqs _ _ _) (cloadJoin_noCloseBc _ _ _)
+    | (refine issueTo_err_rinv (by assumption) h hI (by intro b e; cases e) (by intro k r n e; cases e) ?_; simp; done)
+    | exact issueTo_ok_rinv (by assumption) h hI (by intro b e; cases e) (by intro k r n e; cases e) rfl rfl)
+
+theorem runActs_rinv (cfg : Cfg) : ∀ (fuel : Nat) (st : St) (acts : List Act) (obs : List Ob),
+    BcInv st → RcInv st acts → Ob.badOp "fuel" ∉ (runActs cfg fuel st acts obs).2 → RcInv (runActs cfg fuel st acts obs).1 []
+  | 0, st, acts, obs, _, _, hf => by exfalso; apply hf; simp [runActs]
+  | _+1, st, [], obs, _, h, _ => by simpa [runActs] using h
+  | fuel+1, st, a :: rest, obs, hI, h, hf => by
+    simp only [runActs] at hf ⊢
+    exact runActs_rinv cfg fuel _ _ _ (exec_bcInv cfg st a hI) (exec_rinv cfg st a rest hI h) hf
+
+/-- start a step: an empty stack is replaced by follow-up actions that contain no `closeBc` -/
+theorem RcInv.start {st : St} (h : RcInv st []) (acts : List Act) (hn : ∀ b, Act.closeBc b ∉ acts) : RcInv st acts :=
+  ⟨h.rids, h.closedOut, fun b hb => absurd hb (hn b),
+   fun q hq hp i hi hib hc => (by obtain ⟨r, n, hm⟩ := h.owed q hq hp i hi hib hc; cases hm), h.hasBc⟩
+
+theorem RcInv.begin {st st1 : St} (h : RcInv st []) (hb : st1.bcs = st.bcs) (hr : st1.reqs = st.reqs) (acts : List Act)
+    (hn : ∀ b, Act.closeBc b ∉ acts) : RcInv st1 acts := (h.of_eq hb hr).start acts hn
+
+theorem RcInv.map0 {st st1 : St} (h : RcInv st []) (g : BcInst → BcInst)
+    (hg : ∀ i, (g i).b = i.b ∧ (g i).closed = i.closed ∧ (i.inClients = false → (g i).inClients = false))
+    (hb : st1.bcs = st.bcs.map g) (hr : st1.reqs = st.reqs) : RcInv st1 [] := by
+  constructor
+  · rw [hr]; exact h.rids
+  · intro i1 hi1 hc
+    rw [hb, List.mem_map] at hi1
+    obtain ⟨i, hi, rfl⟩ := hi1
+    exact (hg i).2.2 (h.closedOut i hi ((hg i).2.1 ▸ hc))
+  · intro b hb'; cases hb'
+  · intro q hq hp i1 hi1 hib hc
+    rw [hb, List.mem_map] at hi1
+    obtain ⟨i, hi, rfl⟩ := hi1
+    rw [hr] at hq
+    exact h.owed q hq hp i hi ((hg i).1 ▸ hib) ((hg i).2.1 ▸ hc)
+  · intro q hq hp
+    rw [hr] at hq
+    obtain ⟨i, hi, hib⟩ := h.hasBc q hq hp
+    exact ⟨g i, by rw [hb]; exact List.mem_map.mpr ⟨i, hi, rfl⟩, by rw [(hg i).1, hib]⟩
+
+theorem fireDue_rinv (cfg : Cfg) : ∀ (n : Nat) (st : St) (obs : List Ob),
+    BcInv st → RcInv st [] → Ob.badOp "fuel" ∉ (fireDue cfg n st obs).2 → RcInv (fireDue cfg n st obs).1 []
+  | 0, st, obs, _, _, hf => by exfalso; apply hf; simp [fireDue]
+  | n+1, st, obs, hI, h, hf => by
+    simp only [fireDue] at hf ⊢
+    split
+    · exact h
+    · split
+      · exact h
+      · rename_i t rest hti hdue
+        simp only [hti, hdue, if_false] at hf
+        have hI' : BcInv ({ st with timers := rest } : St) := hI.of_eq rfl rfl
+        have h0 : RcInv ({ st with timers := rest } : St) [] := h.of_eq rfl rfl
+        have h' : RcInv ({ st with timers := rest } : St) [timerAct t.what] :=
+          h0.start _ (by intro b hm; cases ht : t.what <;> (rw [ht] at hm; simp [timerAct] at hm))
+        have hf2 : Ob.badOp "fuel" ∉ (runActs cfg fuel { st with timers := rest } [timerAct t.what] obs).2 := by
+          intro hm
+          obtain ⟨more, hmore⟩ := fireDue_prefix cfg n (runActs cfg fuel { st with timers := rest } [timerAct t.what] obs).1
+            (runActs cfg fuel { st with timers := rest } [timerAct t.what] obs).2
+          apply hf
+          rw [hmore]
+          exact List.mem_append_left _ hm
+        exact fireDue_rinv cfg n _ _ (runActs_bcInv cfg fuel _ _ _ hI') (runActs_rinv cfg fuel _ _ _ hI' h' hf2) hf
+
+theorem cancelOp_reqs (st : St) (o : Nat) : (cancelOp st o).1.reqs = st.reqs := by
+  unfold cancelOp
+  repeat' split
+  all_goals rfl
+
+theorem cancelOp_noCloseBc (st : St) (o : Nat) (b : Nat) : Act.closeBc b ∉ (cancelOp st o).2.2 := by
+  unfold cancelOp
+  repeat' split
+  all_goals (try dsimp only)
+  all_goals (first
+    | exact cancelUnaware_noCloseBc _ _
+    | (simp; done)
+    | (intro hm
+       simp only [List.mem_flatMap] at hm
+       obtain ⟨sl, _, hsl⟩ := hm
+       split at hsl <;> simp at hsl))
+
+theorem bcInv_closeStart' {st : St} (h : BcInv st) (env : Env) :
+    BcInv ({ st with env := env, closing := true, cache := { st.cache with clients := [] },
+                     bcs := st.bcs.map (fun i => { i with inClients := false }) } : St) := by
+  constructor
+  · intro k i hi
+    simp only [List.getElem?_map] at hi
+    cases h0 : st.bcs[k]? with
+    | none => rw [h0] at hi; cases hi
+    | some i0 =>
+      rw [h0] at hi
+      simp only [Option.map_some, Option.some.injEq] at hi
+      rw [← hi]; exact h.ids k i0 h0
+  · show ([] : List (Int × Broker)).map (·.1) = nodesIn (st.bcs.map _)
+    rw [nodesIn_allOut]; rfl
+  · show (nodesIn (st.bcs.map _)).Nodup
+    rw [nodesIn_allOut]; exact List.nodup_nil
+
+theorem RcInv.closeStart {st : St} (h : RcInv st []) (hI : BcInv st) (env : Env) (o : Nat) :
+    RcInv ({ st with env := env, closing := true, cache := { st.cache with clients := [] }, bcs := st.bcs.map (fun i => { i with inClients := false }) } : St)
+      ((st.cache.clients.filterMap (fun cl => (bcOfNode { st with env := env } cl.1).map (·.b))).map Act.closeBc ++
+          [.newAgg (st.cache.clients.filterMap (fun cl => (bcOfNode { st with env := env } cl.1).map (·.b))), .cancelBoots] ++
+          (if clientCloseWakesRetryDelays then [.cancelDelays] else []) ++ [.finishClose o]) := by
+  have hm : RcInv ({ st with env := env, closing := true, cache := { st.cache with clients := [] }, bcs := st.bcs.map (fun i => { i with inClients := false }) } : St) [] :=
+    h.map0 (fun i => { i with inClients := false }) (fun i => ⟨rfl, rfl, fun _ => rfl⟩) rfl rfl
+  refine ⟨hm.rids, hm.closedOut, ?_, fun q hq hp i hi hib hc => (by obtain ⟨r, n, hx⟩ := hm.owed q hq hp i hi hib hc; cases hx), hm.hasBc⟩
+  intro b hb
+  have hb' : b ∈ st.cache.clients.filterMap (fun cl => (bcOfNode { st with env := env } cl.1).map (·.b)) := by
+    rcases List.mem_append.mp hb with hb | hb
+    · rcases List.mem_append.mp hb with hb | hb
+      · rcases List.mem_append.mp hb with hb | hb
+        · simpa using hb
+        · simp at hb
+      · split at hb <;> simp at hb
+    · simp at hb
+  rw [List.mem_filterMap] at hb'
+  obtain ⟨cl, _, hcl⟩ := hb'
+  cases hbn : bcOfNode { st with env := env } cl.1 with
+  | none => rw [hbn] at hcl; cases hcl
+  | some i =>
+    rw [hbn] at hcl
+    simp only [Option.map_some, Option.some.injEq] at hcl
+    have hi : i ∈ st.bcs := by
+      unfold bcOfNode at hbn
+      exact (List.mem_filter.mp (List.mem_of_mem_head? hbn)).1
+    refine ⟨by simp only [List.length_map]; rw [← hcl]; exact bcs_b_lt hI hi, ?_⟩
+    intro i1 hi1 _
+    simp only [List.mem_map] at hi1
+    obtain ⟨i0, _, rfl⟩ := hi1
+    rfl
+
+theorem step_rinv (cfg : Cfg) (st : St) (env : Env) (e : Ev) (hI : BcInv st) (h : RcInv st [])
+    (hf : Ob.badOp "fuel" ∉ (step cfg st env e).2) : RcInv (step cfg st env e).1 [] := by
+  have hI' : BcInv ({ st with env := env } : St) := hI.of_eq rfl rfl
+  have h' : RcInv ({ st with env := env } : St) [] := h.of_eq rfl rfl
+  cases e
+  case cancel o =>
+    simp only [step] at hf ⊢
+    exact runActs_rinv cfg fuel _ _ _ (hI'.of_eq (cancelOp_bcs _ o).1 (by rw [(cancelOp_bcs _ o).2]))
+      ((h'.of_eq (cancelOp_bcs _ o).1 (cancelOp_reqs _ o)).start _ (cancelOp_noCloseBc _ o)) hf
+  case advance dt =>
+    simp only [step] at hf ⊢
+    split
+    · exact h'
+    · rename_i hd
+      simp only [hd, if_false] at hf
+      exact fireDue_rinv cfg _ _ _ (hI'.of_eq rfl rfl) (h'.of_eq rfl rfl) hf
+  case close o =>
+    cases hc : st.closing
+    · rw [step_close_open cfg st env o hc] at hf ⊢
+      exact runActs_rinv cfg fuel _ _ _ (bcInv_closeStart' hI env) (h.closeStart hI env o) hf
+    · rw [step_close_closing cfg st env o hc] at hf ⊢
+      split
+      · rename_i hidem
+        simp only [hidem, if_true] at hf
+        exact runActs_rinv cfg fuel _ _ _ hI' (h'.start _ (by simp)) hf
+      · exact h'
+  case conn b v =>
+    simp only [step]
+    exact h.map0 (fun i => if i.b == b then { i with conn := v } else i) (fun i => by split <;> exact ⟨rfl, rfl, id⟩) rfl rfl
+  case resetTopics ts => simp only [step]; exact h.of_eq rfl rfl
+  case load o topics =>
+    simp only [step] at hf ⊢
+    (refine runActs_rinv cfg fuel _ _ _ ?_ ?_ hf; exact hI'.of_eq rfl rfl; (refine h.begin ?_ ?_ _ ?_ <;> first | rfl | (simp; done)))
+  case cload o g =>
+    simp only [step] at hf ⊢
+    have h2 : RcInv ({ st with env := env, liveOps := st.liveOps ++ [o] } : St) [] := h.of_eq rfl rfl
+    exact runActs_rinv cfg fuel _ _ _ (hI.of_eq (cloadJoin_bcs _ _ _).1 (by rw [(cloadJoin_bcs _ _ _).2]))
+      ((h2.of_eq (cloadJoin_bcs _ _ _).1 (cloadJoin_reqs _ _ _)).start _ (cloadJoin_noCloseBc _ _ _)) hf
+  case srtc o g m =>
+    simp only [step] at hf ⊢
+    split
+    · rename_i hg; simp only [hg] at hf
+      (refine runActs_rinv cfg fuel _ _ _ ?_ ?_ hf; exact hI'.of_eq rfl rfl; (refine h.begin ?_ ?_ _ ?_ <;> first | rfl | (simp; done)))
+    · rename_i hg; simp only [hg] at hf
+      have h2 : RcInv ({ st with env := env, liveOps := st.liveOps ++ [o], srtcs := st.srtcs ++ [{ r := st.srtcs.length, o := o, g := g, minTimeout := m, phase := .resolving }] } : St) [] := h.of_eq rfl rfl
+      exact runActs_rinv cfg fuel _ _ _ (hI.of_eq (cloadJoin_bcs _ _ _).1 (by rw [(cloadJoin_bcs _ _ _).2]))
+        ((h2.of_eq (cloadJoin_bcs _ _ _).1 (cloadJoin_reqs _ _ _)).start _ (cloadJoin_noCloseBc _ _ _)) hf
+  case bootOk j =>
+    simp only [step]
+    split
+    · exact h'
+    · exact h'.of_eq rfl rfl
+  case bootFail j =>
+    simp only [step] at hf ⊢
+    split
+    · exact h'
+    · rename_i x hx; simp only [hx] at hf
+      exact runActs_rinv cfg fuel _ _ _ hI' (h'.start _ (by simp)) hf
+  case send o keys group foe expect =>
+    simp only [step] at hf ⊢
+    split
+    · rename_i hk; simp only [hk, if_true] at hf
+      (refine runActs_rinv cfg fuel _ _ _ ?_ ?_ hf; exact hI'.of_eq rfl rfl; (refine h.begin ?_ ?_ _ ?_ <;> first | rfl | (simp; done)))
+    · rename_i hk
+      simp only [hk, if_false] at hf
+      split
+      · rename_i hd; simp only [hd, if_true] at hf
+        (refine runActs_rinv cfg fuel _ _ _ ?_ ?_ hf; exact hI'.of_eq rfl rfl; (refine h.begin ?_ ?_ _ ?_ <;> first | rfl | (simp; done)))
+      · rename_i hd; simp only [hd, if_false] at hf
+        (refine runActs_rinv cfg fuel _ _ _ ?_ ?_ hf; exact hI'.of_eq rfl rfl; (refine h.begin ?_ ?_ _ ?_ <;> first | rfl | (simp; done)))
+  case ltp o topics =>
+    simp only [step] at hf ⊢
+    (refine runActs_rinv cfg fuel _ _ _ ?_ ?_ hf; exact hI'.of_eq rfl rfl; (refine h.begin ?_ ?_ _ ?_ <;> first | rfl | (simp; done)))
+  all_goals (simp only [step] at hf ⊢; exact runActs_rinv cfg fuel _ _ _ hI' (h'.start _ (by simp)) hf)
+
+theorem run_rinv (cfg : Cfg) : ∀ (evs : List (Env × Ev)) (st : St), BcInv st → RcInv st [] → NoFuel cfg st evs →
+    RcInv (evs.foldl (fun s e => (step cfg s e.1 e.2).1) st) []
+  | [], _, _, h, _ => h
+  | (env, e) :: rest, st, hI, h, hnf => by
+    obtain ⟨hf, hnf'⟩ := hnf
+    exact run_rinv cfg rest _ (step_bcInv cfg st env e hI) (step_rinv cfg st env e hI h hf) hnf'
+
+/-- **once the client is closed no request is pending** - in every state reachable without fuel exhaustion: `close()`
+    told every broker client to close (`Pend`), and a request pending on a closed broker client would have its failure
+    still on the action stack (`RcInv`), which is empty between steps -/
+theorem closed_no_pending (cfg : Cfg) (evs : List (Env × Ev)) (hnf : NoFuel cfg {} evs) :
+    let st := evs.foldl (fun s e => (step cfg s e.1 e.2).1) ({} : St)
+    st.closing = true → ∀ q ∈ st.reqs, q.pending = false := by
+  intro st hc q hq
+  have hR := run_rinv cfg evs {} BcInv.init RcInv.init hnf
+  have hP := run_pend cfg evs {} BcInv.init (by intro i hi; cases hi) hnf
+  cases hp : q.pending
+  · rfl
+  · exfalso
+    obtain ⟨i, hi, hib⟩ := hR.hasBc q hq hp
+    have hcl : i.closed = true := by
+      rcases hP i hi (Or.inr hc) with h1 | h1
+      · exact h1
+      · cases h1
+    obtain ⟨r, n, hm⟩ := hR.owed q hq hp i hi hib hcl
+    cases hm
 
 end Afkak.ClientNet
